@@ -90,8 +90,8 @@ func main() {
 		}
 		for _, im := range file.Imports {
 			p, _ := strconv.Unquote(im.Path.Value)
-			if p == "slices" && im.Name == nil {
-				u.Imports["slices"] = "<std>/slices"
+			if (p == "slices" || p == "cmp" || p == "reflect") && im.Name == nil {
+				u.Imports[p] = "<std>/" + p
 			}
 			if !strings.HasPrefix(p, modulePath+"/") {
 				continue
@@ -255,6 +255,9 @@ func (t *translator) absField(name string, e ast.Expr, c tctx, as absSpec) *absI
 	if ix, ok := x.(*ast.IndexExpr); ok {
 		x = ix.X
 	}
+	if ix, ok := x.(*ast.IndexListExpr); ok {
+		x = ix.X
+	}
 	sel, ok := x.(*ast.SelectorExpr)
 	if !ok {
 		t.unsupported(e.Pos(), "abstract field %s whose type is not *pkg.Type[T]", name)
@@ -264,7 +267,7 @@ func (t *translator) absField(name string, e ast.Expr, c tctx, as absSpec) *absI
 	if !ok || !ok2 {
 		t.unsupported(e.Pos(), "abstract field %s: package of its type is not a package of this module", name)
 	}
-	a := &absIface{Field: name, Dir: dir, Type: sel.Sel.Name, Pure: map[string]bool{}, Methods: map[string]*funcInfo{}, pos: e.Pos()}
+	a := &absIface{Field: name, Dir: dir, Type: sel.Sel.Name, Pure: map[string]bool{}, Methods: map[string]*funcInfo{}, pos: e.Pos(), unit: c.u}
 	for _, p := range as.Pure {
 		a.Pure[p] = true
 	}
@@ -273,6 +276,10 @@ func (t *translator) absField(name string, e ast.Expr, c tctx, as absSpec) *absI
 		for _, n := range as.Methods {
 			if strings.HasPrefix(n, "pkg.") {
 				t.absFunc(a, strings.TrimPrefix(n, "pkg."), true, e.Pos())
+			} else if strings.HasPrefix(n, "fld.") {
+				t.absFieldRead(a, strings.TrimPrefix(n, "fld."), e.Pos())
+			} else if n == "Iterator" {
+				a.Methods["enum.Iterator"] = &funcInfo{Name: "Iterator", Coq: a.Field + "_Iterator_enum", Abs: a, Needs: map[string]bool{}}
 			} else {
 				t.absFunc(a, n, false, e.Pos())
 			}
@@ -502,6 +509,17 @@ func (t *translator) analyse() {
 						}
 					}
 				}
+				{ // F(...) / F[T](...): a plain function of this unit must be emitted first
+					fun := x.Fun
+					if ix, ok := fun.(*ast.IndexExpr); ok {
+						fun = ix.X
+					}
+					if id, ok := fun.(*ast.Ident); ok {
+						if c := t.findFunc(fi.Unit.Dir, id.Name, fi.Unit); c != nil && c != fi && c.Unit == fi.Unit {
+							fi.orderDeps = append(fi.orderDeps, c)
+						}
+					}
+				}
 				if id, ok := x.Fun.(*ast.Ident); ok && fi.Recv == nil {
 					if c := t.findFunc(fi.Unit.Dir, id.Name, fi.Unit); c != nil {
 						fi.callees = append(fi.callees, c)
@@ -652,6 +670,9 @@ func (t *translator) emit(u *unit) string {
 	for _, d := range deps {
 		fmt.Fprintf(&b, "From GodsGen Require %s.\n", d)
 	}
+	if u.UsesCmp {
+		fmt.Fprintf(&b, "From GodsGenProofs Require GoCmp. (* hand-written: comparators and tree nodes, /verif/srcgen/coq/GoCmp.v *)\n")
+	}
 	if u.UsesMap {
 		fmt.Fprintf(&b, "From GodsGenProofs Require GoMap. (* hand-written: Go maps as canonical association lists, /verif/srcgen/coq/GoMap.v *)\n")
 	}
@@ -706,6 +727,9 @@ func (t *translator) emit(u *unit) string {
 	if u.UsesRT {
 		fmt.Fprintf(&b, "(* the capacity the Go runtime gives to a slice it allocates for n elements (slices.Clone, a reallocating\n   append / slices.Insert) is implementation-defined: a parameter *)\nSection Runtime.\nVariable alloc_cap : Z -> Z.\n\n")
 	}
+	if u.UsesSame {
+		fmt.Fprintf(&b, "(* reflect.ValueOf(c1).Pointer() == reflect.ValueOf(c2).Pointer(): whether two comparators are THE SAME function\n   value is not expressible on mathematical functions: an abstract boolean (as in the model) *)\nSection SameComparator.\nVariable same_comparator : GoCmp.comparator -> GoCmp.comparator -> bool.\n\n")
+	}
 	if u.UsesMO {
 		fmt.Fprintf(&b, "(* the order in which `range` visits a map is unspecified: a parameter (any enumeration of the entries) *)\nSection MapOrder.\nVariable map_order : GoMap.gmap -> Datatypes.list (Z * Z).\n\n")
 	}
@@ -738,6 +762,9 @@ func (t *translator) emit(u *unit) string {
 	}
 	if u.UsesMO {
 		fmt.Fprintf(&b, "End MapOrder.\n\n")
+	}
+	if u.UsesSame {
+		fmt.Fprintf(&b, "End SameComparator.\n\n")
 	}
 	if u.UsesRT {
 		fmt.Fprintf(&b, "End Runtime.\n\n")
